@@ -144,9 +144,10 @@ def explore(ck, binp, seed, ncases, model_ok, first):
 
     # correspondence: model evaluated inside Coq on the same inputs
     if cases and model_ok:
-        shard = 2500
+        shard = 700 if len(cases) <= 4000 else 1500
         mism = []
         mism_dep = []
+        jobs = []
         for s in range(0, len(cases), shard):
             part = cases[s:s + shard]
             txt = ("From Coq Require Import List NArith ZArith String.\n"
@@ -156,7 +157,11 @@ def explore(ck, binp, seed, ncases, model_ok, first):
                    + ";\n  ".join(to_coq(c) for c in part) + "\n].\n"
                    "Definition M := Eval vm_compute in mismatches cases.\nPrint M.\n"
                    "Definition MD := Eval vm_compute in mismatches_deployed cases.\nPrint MD.\n")
-            rc, out = ck.coq_eval("cases_%d_%d" % (seed, s // shard), txt)
+            jobs.append((s, "cases_%d_%d" % (seed, s // shard), txt))
+        from concurrent.futures import ThreadPoolExecutor
+        with ThreadPoolExecutor(max_workers=8) as ex:
+            results = list(ex.map(lambda j: (j[0],) + ck.coq_eval(j[1], j[2]), jobs))
+        for s, rc, out in results:
             got = vlib.parse_coq_list_of_nat(out, "M") if rc == 0 else None
             gotd = vlib.parse_coq_list_of_nat(out, "MD") if rc == 0 else None
             if got is None or gotd is None:
